@@ -15,6 +15,8 @@ OUT=/verif/seeded/$ID
 mkdir -p $OUT
 cp $M/$PF $OUT/patch.diff
 DEMOS=$(ls $M/*.rs 2>/dev/null | grep -v "twin\|must_not\|compile_fail")
+# miri-race: demonstrations that need a particular interleaving, explored with Miri's seeded scheduler (zz_race*.rs only)
+if [ "$MODE" = "miri-race" ]; then DEMOS=$(ls $M/zz_race*.rs 2>/dev/null); fi
 for d in $DEMOS; do cp $d tests/; cp $d $OUT/; done
 [ -f $M/README.md ] && cp $M/README.md $OUT/README.agent.md
 run_demo() {
@@ -24,6 +26,7 @@ run_demo() {
     case $MODE in
       release) timeout 1200 cargo test --release --offline --test $t >$OUT/.demo.log 2>&1 || rc=1 ;;
       miri) MIRIFLAGS="-Zmiri-many-seeds=0..4 -Zmiri-disable-isolation" timeout 2400 cargo +nightly miri test --offline --test $t >$OUT/.demo.log 2>&1 || rc=1 ;;
+      miri-race) MIRIFLAGS="-Zmiri-many-seeds=0..64 -Zmiri-preemption-rate=0.3 -Zmiri-disable-isolation" timeout 3000 cargo +nightly miri test --offline --test $t >$OUT/.demo.log 2>&1 || rc=1 ;;
       *) timeout 1200 cargo test --offline --test $t >$OUT/.demo.log 2>&1 || rc=1 ;;
     esac
   done
@@ -37,11 +40,15 @@ if [ $APPLY = ok ]; then
   run_demo; MUT=$?
   tail -5 $OUT/.demo.log > $OUT/demo_with_patch.tail.txt
   for d in $DEMOS; do rm -f tests/$(basename $d); done
+  if [ -n "$SKIP_BASELINE" ] && [ -f $OUT/confirm.json ] && grep -q "baseline_missing 0" $OUT/confirm.json; then
+    BASE="(carried over from the confirmation at $(python3 -c "import json;print(json.load(open('$OUT/confirm.json'))['repo_head'])")) $(python3 -c "import json;print(json.load(open('$OUT/confirm.json'))['baseline_with_patch'])")"
+  else
   BASE=$(/tmp/tools/run_baseline.sh $W 2>&1 | grep -E "^passed|MISSING" | tr '\n' ';')
   if ! echo "$BASE" | grep -q "baseline_missing 0"; then
     sleep 30
     BASE2=$(/tmp/tools/run_baseline.sh $W 2>&1 | grep -E "^passed|MISSING" | tr '\n' ';')
     BASE="retry: $BASE2 first: $BASE"
+  fi
   fi
 else
   BUILD=-1; MUT=-1; BASE="n/a"
